@@ -636,6 +636,10 @@ KERNELS = {
 }
 
 
+import translate_px  # noqa: E402  (second front end: pipelines and short effectful statement lists; it imports the helpers above)
+KERNELS.update(translate_px.KERNELS)
+
+
 def generate(name, outdir):
     """returns (ok, message); writes <outdir>/<name>.v when ok"""
     try:
